@@ -79,20 +79,32 @@ func c05trim(p *Prog, r *Report) {
 					detail = "the trimmed slice is not the pool"
 				}
 				base, isLen := isLenOf(sl.Low)
-				lenIn, _ := unwrap(sl.Low).(ssa.Instruction)
-				if !isLen || lenIn == nil {
+				// the moment the count was fixed: the load of the pool whose length is taken (the len
+				// itself may be evaluated later, on that captured slice value)
+				var lenIn ssa.Instruction
+				if isLen {
+					flowsFromLocal(base, func(x ssa.Value) bool {
+						if fv, _ := fieldOf(x); fv == f {
+							if xi, isIn := x.(ssa.Instruction); isIn {
+								lenIn = xi
+							}
+							return true
+						}
+						return false
+					})
+				}
+				if !isLen {
 					ok = false
 					detail = "the trim count is not len(pool)"
+				} else if lenIn == nil {
+					ok = false
+					detail = "the trim count is the length of something else than the pool"
 				} else {
-					if fv, _ := fieldOf(base); fv != f {
-						ok = false
-						detail = "the trim count is the length of something else than the pool"
-					}
 					if !dominates(lenIn, in) {
 						ok = false
 						detail = "the trim count is captured after the insertion (items added by the commit callback during insertion would be dropped)"
 					}
-					// nothing between the len and the hand-over can write the pool
+					// nothing between the capture and the hand-over can write the pool
 					if ok && !dominates(lenIn, ne) {
 						ok = false
 						detail = "the pool is handed to NewEvent before its length is captured"
@@ -119,7 +131,7 @@ func c05trim(p *Prog, r *Report) {
 	if okSig {
 		a := argN(rs[0], 0)
 		handed := argN(ne, 2)
-		if !(sameOrigin(a, handed) || unwrap(a) == unwrap(handed)) {
+		if !(sameOrigin(a, handed) || unwrap(a) == unwrap(handed) || commonOrigin(a, handed)) {
 			okSig = false
 			detail = "the signatures removed are not the slice handed to NewEvent"
 		}
